@@ -61,6 +61,17 @@ ReturnViol(r) ==
   \cup (IF Len(out) = Dim(G) /\ SumWt(G, out) = opt.w /\ SortedWeights(G, out) # opt.ws
         THEN {"weight-vector"} ELSE {})
 
+\* After a rejected Emit the call is no longer a behaviour of this specification, but the weight clauses of C02 stay decidable:
+\* the trace specifications keep summing the weights of whatever is emitted (ws = -1 once an emitted edge is not an edge
+\* of the graph) and evaluate them at Return.
+AddW(ws, cl) == IF ws < 0 \/ ~(SeqToSet(cl) \subseteq EIdx(G)) THEN -1
+                ELSE ws + FoldSeq(LAMBDA e, a : a + W(G, e), 0, cl)
+DegradedReturnViol(r, ws) ==
+  LET opt == Opt(G) IN
+       (IF ~Close(r, opt.w) THEN {"ret-ne-optimum"} ELSE {})
+  \cup (IF ws < 0 THEN {} ELSE (IF ~Close(r, ws) THEN {"ret-ne-emitted-weight"} ELSE {})
+                                \cup (IF ws # opt.w THEN {"not-minimum"} ELSE {}))
+
 Return(r) == /\ pc = "run"
              /\ ReturnViol(r) = {}
              /\ pc' = "idle" /\ UNCHANGED <<G, out, basis>>
